@@ -78,7 +78,7 @@ def run(tier="quick", only_key=None):
         bsa = it.module("exponax._spectral").env.get("build_scaling_array")
         dims = (1, 2, 3) if parity == 0 or tier == "thorough" else (2,)
         for D in dims:
-            S_rec = it.call(bsa, [D, N], {"mode": "reconstruction"}).data[0]
+            S_rec = C.scaling(D, "reconstruction", parity)
             Cn = 2
             u = state_phys(D, Cn, "u")
             r = state_phys(D, Cn, "v")
